@@ -306,6 +306,47 @@ func ruleLoop(p *Program, r *Result, parts string) {
 			}
 		}
 
+		if has("E") {
+			// (E) weaker form of (e) for properties that only need the reply header to start from this
+			// request's header: the object handed to Handle (fresh or re-used) has its header field
+			// stored exactly once in the loop function, from the packet just read, between the read and Handle
+			for i, h := range handles {
+				ek := fmt.Sprintf("%s:E:response-header#%d", key, i+1)
+				args := h.Common().Args
+				if len(args) < 2 {
+					r.undecided("R-LOOP", ek, p.Pos(h.Pos()), "Handle invoke with unexpected arity")
+					continue
+				}
+				V := stripConv(args[0])
+				nStores, good := 0, false
+				for _, b := range L.Blocks {
+					for _, in := range b.Instrs {
+						st, ok := in.(*ssa.Store)
+						if !ok {
+							continue
+						}
+						fa, ok := st.Addr.(*ssa.FieldAddr)
+						if !ok || fa.X != V {
+							continue
+						}
+						f, _, _ := fieldAddrOf(fa)
+						if f == nil || !typeIs(f.Type(), modPath, "Header") {
+							continue
+						}
+						nStores++
+						for _, rd := range reads {
+							if derivesFromCallResult(st.Val, rd, 0, 8) && domInstr(rd, st) && domInstr(st, h) {
+								good = true
+							}
+						}
+					}
+				}
+				r.cond(good && nStores == 1, "R-LOOP", ek, p.Pos(h.Pos()),
+					"the response handed to Handle has its header stored once, from the packet just read, after the read and before Handle",
+					fmt.Sprintf("the header of the response handed to Handle is not set exactly once from the packet just read before Handle (%d stores)", nStores))
+			}
+		}
+
 		if has("f") {
 			// (f) a finite read deadline is armed before every read, and re-armed between two reads;
 			// the context is tested between two reads
